@@ -74,8 +74,7 @@ func Honest(r *mrand.Rand, o HonestOpts) *World {
 func unrelated(r *mrand.Rand, n int) []*big.Int {
 	var out []*big.Int
 	for i := 0; i < n; i++ {
-		// serials generated by NextSerial are > 0x1000 and < 2^40; keep unrelated ones above 2^48
-		out = append(out, new(big.Int).Add(big.NewInt(1<<48), big.NewInt(r.Int63n(1<<40))))
+		out = append(out, new(big.Int).Add(big.NewInt(1<<48), big.NewInt(r.Int63n(1<<40)))) // certificate serials are 19 random bytes
 	}
 	return out
 }
